@@ -44,11 +44,15 @@ class C06(Prop):
             elif r < 0.2:
                 st = "recal"
             c = {"stream": st, **cfg, "y": ys, "cols": cols, "w": dc.gen_weights(rng, n), "colnames": dc.gen_colnames(rng, ncols)}
+            if c["colnames"] is None and rng.random() < 0.12:
+                c["xcontainer"] = "rows_mixed"
             r2 = rng.random()
             if r2 < 0.1:
                 c["functional"] = dc.functional_of(cfg)
-                if c["functional"] in ("expectile", "quantile"):
-                    c["level_given"] = cfg["level"]
+                if c["functional"] in ("expectile", "quantile") and (cfg.get("elem_f") or rng.random() < 0.5):
+                    c["level_given"] = cfg["level"]  # otherwise: explicit functional, the level taken from the scoring function
+            elif r2 < 0.14 and dc.functional_of(cfg) in ("expectile", "quantile"):
+                c["level_given"] = cfg["level"]  # explicit level, the functional inferred
             elif r2 < 0.2 and dc.functional_of(cfg) in ("median", "quantile") and cfg["level"] == 0.5:
                 # the level is documented to be neglected for the median: pass one anyway
                 c["functional"] = "median"
